@@ -749,9 +749,10 @@ def _drive(obs, mgr, xfers, spec, mode, do_cancel):
                 mgr.shutdown()
             elif mode == 'with_exc':
                 cls = with_exc_class(spec)
+                exc = with_exc_instance(spec, msg)
                 try:
                     with mgr:
-                        raise cls(msg)
+                        raise exc
                 except BaseException as e:  # noqa
                     if type(e) is not cls:
                         raise
@@ -785,13 +786,27 @@ class VfBaseException(BaseException):
     """A BaseException that is neither an Exception nor a KeyboardInterrupt (like asyncio.CancelledError or a framework's own)."""
 
 
+def with_exc_instance(spec, msg):
+    """The exception object a 'with_exc' run raises inside the with-block.  Its MESSAGE is str(exception) - not necessarily its first
+    argument: OSError(errno, text, filename), KeyError (quotes its key), exceptions with several arguments."""
+    t = spec.get('with_exc_type')
+    if t == 'oserror3':
+        return FileNotFoundError(2, msg or 'No such file or directory', 'some-file')
+    if t == 'keyerror':
+        return KeyError(msg)
+    if t == 'multiarg':
+        return ValueError(msg, 42)
+    return with_exc_class(spec)(msg)
+
+
 def with_exc_class(spec):
     """The exception type a 'with_exc' run raises inside the with-block: a non-interrupt exception of any kind."""
     from s3transfer.exceptions import CancelledError as _C, FatalError as _F
 
     # ('cancelled' / 'fatal': the library's own exception classes leaving the block - result() of a cancelled transfer re-raised by the
     # caller, concurrent.futures.CancelledError from user code, a FatalError of another manager's future)
-    return {'systemexit': SystemExit, 'generatorexit': GeneratorExit, 'base': VfBaseException, 'cancelled': _C, 'fatal': _F}.get(
+    return {'systemexit': SystemExit, 'generatorexit': GeneratorExit, 'base': VfBaseException, 'cancelled': _C, 'fatal': _F,
+            'oserror3': FileNotFoundError, 'keyerror': KeyError, 'multiarg': ValueError}.get(
         spec.get('with_exc_type'), ValueError)
 
 
